@@ -173,6 +173,8 @@ type cConn struct {
 	Costs  []int  // ms of fake time charged per processed frame, cycled
 	CutAt  int    // close the connection after this many bytes of the last frame (-1: on the frame boundary)
 	OutDir string // set at execution (storage-fault events rename it)
+	// TrailingClear: the last message of the stream is a 'clear' marker (connection lost while the camera restarts)
+	TrailingClear bool
 }
 
 type cScenario struct {
@@ -646,6 +648,12 @@ func genConn(r *verifsim.Run, focus string, cfg cCfg, firstID int) *cConn {
 			sinceT++
 		}
 	}
+	if focus == "C14" && r.Chance(1, 6) {
+		// the camera restarts and the connection is lost before another frame gets through: the marker
+		// is the last complete message of the stream
+		cn.Ev = append(cn.Ev, cEvent{Kind: 'C'})
+		cn.TrailingClear = true
+	}
 	fs := c.frameSize()
 	if r.Chance(1, 4) {
 		for i := range cn.Ev {
@@ -670,6 +678,9 @@ func genConn(r *verifsim.Run, focus string, cfg cCfg, firstID int) *cConn {
 	}
 	if r.Chance(1, 3) {
 		cn.CutAt = r.Range(1, fs-1) // connection dies in the middle of a frame
+	}
+	if cn.TrailingClear {
+		cn.CutAt = -1
 	}
 	return cn
 }
@@ -1564,6 +1575,9 @@ func checkE2E(r *verifsim.Run, sc *cScenario, res *cResult) {
 		}
 		if c.allBorder() {
 			r.Probe("edge-border-covers-the-whole-frame")
+		}
+		if cn.TrailingClear {
+			r.Probe("clear-marker-is-the-last-message-of-the-stream")
 		}
 		if c.SimFree {
 			r.Probe(fmt.Sprintf("simulated-disk-free-space: %s the minimum", map[bool]string{true: "at or above", false: "below"}[c.diskOK()]))
